@@ -232,7 +232,7 @@ func c05Segment(kind string, seq int) []byte {
 	return []byte(fmt.Sprintf("server-says-%d\r\n", seq))
 }
 
-func c05NewPlane(d *c05Dialer) (*ControlPlane, error) {
+func c05NewPlane(d netproxy.Dialer) (*ControlPlane, error) {
 	log := verifLogger()
 	gopt := &dialer.GlobalOption{Log: log, CheckInterval: time.Hour}
 	mk := func(name string, nd netproxy.Dialer) *outbound.DialerGroup {
